@@ -194,7 +194,7 @@ static Word DecodeCond(int argp) {
     }
 
     if ((cnttp > 1) || (cntzl > 1) || (cntv > 1) || (cntc > 1)) {
-        WrStrErrorPos(ErrNum_UndefCond, &ArgStr[argp]);
+        WrStrErrorPos(ErrNum_UndefCond, &ArgStr[ArgCnt]);
     }
 
     return ret;
